@@ -58,18 +58,16 @@ impl Rep for AdjacencyMap {}
 impl Rep for AdjacencyMatrix {}
 impl Rep for EdgeList {}
 
-fn threads(pmax: usize) -> usize {
-    let p = nd::below(pmax) + 1;
-
-    cx::set_parallelism(p);
-
-    p
+fn threads(cfg: usize) -> usize {
+    cx::threads(cfg)
 }
 
-pub fn tournament<R: Rep, const N: usize>(pmax: usize) {
+pub fn tournament<R: Rep, const N: usize>(cfg: usize) {
+    let pmax = cx::threads_max(cfg);
+
     cx::set_vcap(N.max(pmax) + 1);
 
-    let p = threads(pmax);
+    let p = threads(cfg);
     let seed = nd::u64();
     let d = R::random_tournament(N, seed);
 
@@ -87,7 +85,7 @@ pub fn tournament<R: Rep, const N: usize>(pmax: usize) {
 
     assert!(d.size() == N * (N - 1) / 2, "a tournament has n(n-1)/2 arcs");
     kani::cover!(d.has_arc(N - 1, 0), "an arc from the last to the first vertex");
-    kani::cover!(p > 1, "more than one worker");
+    kani::cover!(cfg >= cx::EXACT || pmax < 2 || p > 1, "more than one worker");
     core::mem::forget(d);
 }
 
@@ -119,10 +117,12 @@ fn tree<R: Rep, const N: usize>() {
     core::mem::forget(d);
 }
 
-pub fn erdos_renyi<R: Rep, const N: usize>(pmax: usize) {
+pub fn erdos_renyi<R: Rep, const N: usize>(cfg: usize) {
+    let pmax = cx::threads_max(cfg);
+
     cx::set_vcap(N.max(pmax) + 1);
 
-    let t = threads(pmax);
+    let t = threads(cfg);
     let seed = nd::u64();
     let p = nd::f64();
 
@@ -175,10 +175,12 @@ fn erdos_renyi_rejects<R: Rep, const N: usize>() {
     crate::rejected_call_returned();
 }
 
-pub fn deterministic<R: Rep, const N: usize>(pmax: usize) {
+pub fn deterministic<R: Rep, const N: usize>(cfg: usize) {
+    let pmax = cx::threads_max(cfg);
+
     cx::set_vcap(N.max(pmax) + 1);
 
-    let _ = threads(pmax);
+    let _ = threads(cfg);
     let seed = nd::u64();
     let which = nd::below(3);
 
@@ -217,7 +219,7 @@ pub fn deterministic<R: Rep, const N: usize>(pmax: usize) {
 // next_f64 in [0, 1) for every 256-bit state (two consecutive draws).
 // @verif prop=C15 tier=quick fl=f0 role=prng/next-f64-range t=1200 mem=12
 #[cfg_attr(kani, kani::proof)]
-#[cfg_attr(kani, kani::unwind(3))]
+#[cfg_attr(kani, kani::unwind(8))]
 pub fn c15_next_f64_range() {
     next_f64_range();
 }
@@ -225,50 +227,57 @@ pub fn c15_next_f64_range() {
 // random_tournament(3, every seed), AdjacencyMatrix, real std.
 // @verif prop=C15 tier=quick fl=f0 role=tournament/matrix t=1500 mem=14
 #[cfg_attr(kani, kani::proof)]
-#[cfg_attr(kani, kani::unwind(6))]
+#[cfg_attr(kani, kani::unwind(8))]
 pub fn c15_tournament_matrix_n3() {
     tournament::<AdjacencyMatrix, 3>(1);
 }
 
 // @verif prop=C15 tier=quick fl=f1 role=tournament/edge-list t=1500 mem=14
 #[cfg_attr(kani, kani::proof)]
-#[cfg_attr(kani, kani::unwind(6))]
+#[cfg_attr(kani, kani::unwind(8))]
 pub fn c15_tournament_edge_list_n3() {
     tournament::<EdgeList, 3>(1);
 }
 
 // @verif prop=C15 tier=quick fl=f2 role=tournament/adjacency-list t=1500 mem=14
 #[cfg_attr(kani, kani::proof)]
-#[cfg_attr(kani, kani::unwind(6))]
+#[cfg_attr(kani, kani::unwind(8))]
 pub fn c15_tournament_adjacency_list_n3() {
     tournament::<AdjacencyList, 3>(1);
 }
 
-// AdjacencyMap::random_tournament(3, every seed) with 1..=4 workers (Mutex-protected rows; sequential thread model).
-// @verif prop=C15 tier=quick fl=f2 role=tournament/adjacency-map t=1800 mem=16
+// AdjacencyMap::random_tournament(3, every seed) with 2 workers (Mutex-protected rows; sequential thread model).
+// @verif prop=C15 tier=quick fl=f2 feat=map4 role=tournament/adjacency-map t=2400 mem=20
 #[cfg_attr(kani, kani::proof)]
-#[cfg_attr(kani, kani::unwind(10))]
+#[cfg_attr(kani, kani::unwind(8))]
+pub fn c15_tournament_adjacency_map_n3_t2() {
+    tournament::<AdjacencyMap, 3>(cx::EXACT + 2);
+}
+
+// @verif prop=C15 tier=thorough fl=f2 feat=map4 role=tournament/adjacency-map t=3600 mem=30
+#[cfg_attr(kani, kani::proof)]
+#[cfg_attr(kani, kani::unwind(8))]
 pub fn c15_tournament_adjacency_map_n3_p4() {
     tournament::<AdjacencyMap, 3>(4);
 }
 
 // @verif prop=C15 tier=quick fl=f0 role=tree/matrix t=1500 mem=14
 #[cfg_attr(kani, kani::proof)]
-#[cfg_attr(kani, kani::unwind(6))]
+#[cfg_attr(kani, kani::unwind(8))]
 pub fn c15_tree_matrix_n3() {
     tree::<AdjacencyMatrix, 3>();
 }
 
 // @verif prop=C15 tier=quick fl=f1 role=tree/edge-list t=1500 mem=14
 #[cfg_attr(kani, kani::proof)]
-#[cfg_attr(kani, kani::unwind(6))]
+#[cfg_attr(kani, kani::unwind(8))]
 pub fn c15_tree_edge_list_n3() {
     tree::<EdgeList, 3>();
 }
 
 // @verif prop=C15 tier=thorough fl=f2 role=tree/adjacency-list t=1800 mem=16
 #[cfg_attr(kani, kani::proof)]
-#[cfg_attr(kani, kani::unwind(6))]
+#[cfg_attr(kani, kani::unwind(8))]
 pub fn c15_tree_adjacency_list_n3() {
     tree::<AdjacencyList, 3>();
 }
@@ -283,29 +292,36 @@ pub fn c15_tree_adjacency_map_n3() {
 // erdos_renyi(3, every p in [0, 1], every seed), AdjacencyMatrix.
 // @verif prop=C15 tier=quick fl=f0 role=erdos-renyi/matrix t=1800 mem=16
 #[cfg_attr(kani, kani::proof)]
-#[cfg_attr(kani, kani::unwind(6))]
+#[cfg_attr(kani, kani::unwind(8))]
 pub fn c15_erdos_renyi_matrix_n3() {
     erdos_renyi::<AdjacencyMatrix, 3>(1);
 }
 
 // @verif prop=C15 tier=quick fl=f1 role=erdos-renyi/edge-list t=1800 mem=16
 #[cfg_attr(kani, kani::proof)]
-#[cfg_attr(kani, kani::unwind(6))]
+#[cfg_attr(kani, kani::unwind(8))]
 pub fn c15_erdos_renyi_edge_list_n3() {
     erdos_renyi::<EdgeList, 3>(1);
 }
 
-// AdjacencyMap::erdos_renyi (threaded, complement for p > 0.5) with 1..=4 workers.
-// @verif prop=C15 tier=quick fl=f2 role=erdos-renyi/adjacency-map t=2400 mem=20
+// AdjacencyMap::erdos_renyi (threaded, complement for p > 0.5) with 2 workers.
+// @verif prop=C15 tier=quick fl=f2 feat=map4 role=erdos-renyi/adjacency-map t=2400 mem=20
 #[cfg_attr(kani, kani::proof)]
-#[cfg_attr(kani, kani::unwind(10))]
+#[cfg_attr(kani, kani::unwind(8))]
+pub fn c15_erdos_renyi_adjacency_map_n3_t2() {
+    erdos_renyi::<AdjacencyMap, 3>(cx::EXACT + 2);
+}
+
+// @verif prop=C15 tier=thorough fl=f2 feat=map4 role=erdos-renyi/adjacency-map t=3600 mem=30
+#[cfg_attr(kani, kani::proof)]
+#[cfg_attr(kani, kani::unwind(8))]
 pub fn c15_erdos_renyi_adjacency_map_n3_p4() {
     erdos_renyi::<AdjacencyMap, 3>(4);
 }
 
 // @verif prop=C15 tier=thorough fl=f2 role=erdos-renyi/adjacency-list t=2400 mem=20
 #[cfg_attr(kani, kani::proof)]
-#[cfg_attr(kani, kani::unwind(6))]
+#[cfg_attr(kani, kani::unwind(8))]
 pub fn c15_erdos_renyi_adjacency_list_n3() {
     erdos_renyi::<AdjacencyList, 3>(1);
 }
@@ -313,14 +329,14 @@ pub fn c15_erdos_renyi_adjacency_list_n3() {
 // p outside [0, 1] (NaN included) must panic.
 // @verif prop=C15 tier=quick fl=f0 role=erdos-renyi-rejects/matrix t=1200 mem=12 expect=panic
 #[cfg_attr(kani, kani::proof)]
-#[cfg_attr(kani, kani::unwind(6))]
+#[cfg_attr(kani, kani::unwind(8))]
 pub fn c15_erdos_renyi_rejects_matrix() {
     erdos_renyi_rejects::<AdjacencyMatrix, 3>();
 }
 
 // @verif prop=C15 tier=quick fl=f1 role=erdos-renyi-rejects/edge-list t=1200 mem=12 expect=panic
 #[cfg_attr(kani, kani::proof)]
-#[cfg_attr(kani, kani::unwind(6))]
+#[cfg_attr(kani, kani::unwind(8))]
 pub fn c15_erdos_renyi_rejects_edge_list() {
     erdos_renyi_rejects::<EdgeList, 3>();
 }
@@ -335,7 +351,7 @@ pub fn c15_erdos_renyi_rejects_adjacency_map() {
 // Determinism: two calls with equal (symbolic) arguments, AdjacencyMatrix.
 // @verif prop=C15 tier=quick fl=f0 role=deterministic/matrix t=1800 mem=16
 #[cfg_attr(kani, kani::proof)]
-#[cfg_attr(kani, kani::unwind(6))]
+#[cfg_attr(kani, kani::unwind(8))]
 pub fn c15_deterministic_matrix_n3() {
     deterministic::<AdjacencyMatrix, 3>(1);
 }
